@@ -188,6 +188,33 @@ def run(R):
                 "an Exception raised by a subscriber propagates out of the completion")
     notify_override_rule(R, ro, "C10.NOTIFY-OVERRIDE")
 
+    # a lazily computed Future whose provider raises - whatever it raises - is completed with that exception (once), so that the
+    # provider is not run again and subscribers are told
+    fut = repo.cls("futures.Future")
+    fc = fut.methods.get("_compute")
+    R.need(fc is not None, "anchor vanished: Future._compute")
+    fcfg_ = cfg_of(fc)
+    hier_ = ExcHierarchy(repo)
+    for n_, c_ in kit.call_sites(fc, lambda c: q.src(c.func) == "self._value_provider"):
+        for t_ in kit.enclosing_try_handlers(c_)[:1]:
+            for h_ in t_.handlers:
+                hn_ = kit.one(fcfg_.nodes_for(h_), "handler node")
+                stores_ = [x for x, cc in kit.call_sites(fc, lambda cc: q.call_name(cc) == "self.set_error" and cc.args and isinstance(cc.args[0], ast.Name)
+                                                        and cc.args[0].id == h_.name) if any(cc is y for y in ast.walk(h_))]
+
+                def computed_(nd):
+                    if nd.kind != "test":
+                        return None
+                    k, s, pos = q.atom_test(nd.ast)
+                    if k == "call" and s == "self.is_computed":
+                        return "T" if pos else "F"
+                    return None
+                p_ = fcfg_.find_path([hn_], [fcfg_.exit, fcfg_.raise_exit], N, cut_nodes=stores_,
+                                     keep_edge=lambda e: not (computed_(fcfg_.nodes[e.src]) is not None and e.label == computed_(fcfg_.nodes[e.src])))
+                R.check(p_ is None, "C10.COMPUTE-ONCE", "%s:handler:%s" % (fc.qualname, q.src(h_.type) if h_.type else "all"), R.site(fc, h_),
+                        "a provider failure caught as %s completes the future with that exception" % (q.src(h_.type) if h_.type else "anything"),
+                        "the handler for %s leaves without completing the future: it stays uncomputed, the provider runs again on every value(), "
+                        "and each call reports a different error object" % (q.src(h_.type) if h_.type else "anything"), fcfg_.fmt_path(p_) if p_ else None)
     # ---- COMPUTE-ONCE
     for mname in ("value", "error"):
         m = fb.methods.get(mname)
